@@ -162,6 +162,10 @@ func Generate(r *rand.Rand, name, dir, path string, o Opts) *Package {
 	}
 
 	for _, f := range files {
+		if f == "b.go" {
+			// a licence header and a build constraint above the package clause (not the package doc: a blank line follows)
+			g.w(f, "// Copyright of the synthetic authors.\n// Use as you like.\n\n//go:build !synth_never\n")
+		}
 		g.w(f, "package %s\n", name)
 		if f == "a.go" && len(o.Imports) > 0 {
 			g.w(f, "import (")
@@ -261,6 +265,9 @@ func Generate(r *rand.Rand, name, dir, path string, o Opts) *Package {
 		p.Types = append(p.Types, &TypeDecl{Name: "ShadowBox", Kind: "generic-struct", Generic: true, DeclTags: map[string][]string{}, File: "b.go"})
 		p.TypeParms = append(p.TypeParms, n2)
 	}
+	// comments after the last declaration of a file
+	g.w("b.go", "\n// Notes after the last declaration:\n// nothing follows.")
+	g.w("a.go", "\n/* closing remark of a.go */")
 	for f, b := range g.bufs {
 		p.Files[f] = b.String()
 	}
